@@ -30,6 +30,7 @@ func main() {
 	tier := flag.String("tier", os.Getenv("VERIF_TIER"), "quick|thorough")
 	list := flag.Bool("list", false, "list findings with keys (for triage)")
 	noEvidence := flag.Bool("no-evidence", false, "do not write evidence/replay files")
+	verbose := flag.Bool("v", false, "print every obligation")
 	mutant := flag.String("mutant", "", "apply the named in-memory mutant before checking (self-test/debug)")
 	flag.Parse()
 	if *tier == "" {
@@ -141,6 +142,14 @@ func main() {
 			}
 			fmt.Printf("VIOLATION property=%s replay=%s\n", f.Prop, rp)
 			exit = 1
+		}
+		if *verbose {
+			for _, o := range first.obls {
+				fmt.Printf("  [%v] %s %s | %s | %s | %s\n", o.Discharged, o.Rule, o.Pos, o.Func, o.Construct, o.How)
+			}
+			for _, n := range first.notes {
+				fmt.Printf("  note: %s\n", n)
+			}
 		}
 		if *list {
 			for _, f := range first.finds {
